@@ -51,7 +51,8 @@ MINIMUMS = {
     'thorough': {'evaluations': 1000},
 }
 
-HEADER = '''import functools
+HEADER = '''import collections
+import functools
 import fiddle as fdl
 from fiddle import arg_factory
 from fiddle.experimental import auto_config
@@ -205,6 +206,11 @@ class Prog:
                         # factories whose bound arguments are positional only
                         'functools.partial(K.fresh_scaled, 0.5, 2.0)', 'functools.partial(K.fresh_pair, 1)'])
       return f'arg_factory.partial({target}, {kw}={fac})'
+    if 0.8 <= r < 0.84:
+      # classes without an inferrable signature that daglish does not traverse
+      self.constructs.add('signature-less-container-class')
+      ctor = rng.choice(['collections.OrderedDict', 'K.Registry'])
+      return f'{ctor}(k={self.call(depth - 1)}, j={self.expr(depth - 1)})'
     if r < 0.8 and self.prev:
       p = rng.choice(self.prev)
       self.constructs.add('inline-call' if p.inline else 'noninline-call')
